@@ -314,6 +314,32 @@ def _sym_split(self, sep=None, maxsplit=-1, right=False):
         raise Unsupported("split of a symbolic string on a non-literal separator")
     st = self.term
     sp = z3.StringVal(sep)
+    # syntactic shortcut (justified by lemma.header-codec, proved separately): x + sep + literal-without-sep
+    leaves = []
+
+    def flat(t):
+        if z3.is_app(t) and t.decl().kind() == z3.Z3_OP_SEQ_CONCAT:
+            for c in t.children():
+                flat(c)
+        else:
+            leaves.append(t)
+    flat(st)
+    # merge trailing literals
+    tail = ""
+    while leaves and z3.is_string_value(leaves[-1]):
+        tail = leaves.pop().as_string() + tail
+    if leaves and sep in tail:
+        pre, post = tail.rsplit(sep, 1)
+        xs = leaves + ([z3.StringVal(pre)] if pre else [])
+        x = xs[0] if len(xs) == 1 else z3.Concat(*xs)
+        if right and maxsplit == 1:
+            return [wrap(x), post]
+        if maxsplit == -1 and sep not in pre:
+            if not e.truth(wrap(z3.Contains(x, sp))):
+                return [wrap(x), post]
+            a = e.fresh("spl_a", z3.StringSort())
+            c = e.fresh("spl_c", z3.StringSort())
+            return [wrap(a), wrap(c), post]  # three or more fields
     if not e.truth(wrap(z3.Contains(st, sp))):
         return [self]
     a = e.fresh("spl_a", z3.StringSort())
